@@ -42,6 +42,9 @@ def tasks(tier):
     out = []
     for i, f in enumerate(REP_FATES):
         out.append(dict(kind='rep', fate=list(f), tier=tier))
+    # a child that ignores SIGHUP/SIGINT: close(force=False)/terminate() fail first, the death comes later
+    for f in (('exit', 3), ('sig', 9), ('sig', 15)):
+        out.append(dict(kind='rep', fate=list(f), tier=tier, disposition='ignores'))
     for i in range(8):
         out.append(dict(kind='all', part=i, parts=8, tier=tier))
     out.append(dict(kind='popen', tier=tier))
@@ -53,11 +56,11 @@ def tasks(tier):
     return out
 
 
-def run_seq(ch, fate, seq, immediate=False):
+def run_seq(ch, fate, seq, immediate=False, disposition='normal'):
     r = None
     viol = None
     try:
-        r = L.Run(ch, 'pty-select', fate=None if immediate else tuple(fate))
+        r = L.Run(ch, 'pty-select', fate=None if immediate else tuple(fate), disposition=disposition)
         if immediate:
             if fate[0] == 'exit':
                 r.env.procs.exit(r.proc, fate[1])
@@ -90,7 +93,7 @@ def run_task(task):
         for n in range(1, maxlen + 1):
             for seq in itertools.product(OPS, repeat=n):
                 def run(ch):
-                    return run_seq(ch, fate, seq)
+                    return run_seq(ch, fate, seq, disposition=task.get('disposition', 'normal'))
                 for ch, (obs, viol) in dfs(run):
                     acc.execs += 1
                     acc.transitions += len(obs.get('events', ()))
@@ -280,7 +283,8 @@ def replay(spec):
     out = {'violation': None}
     if task['kind'] in ('rep', 'all'):
         fate = task['fate'] if task['kind'] == 'rep' else spec['fate']
-        obs, viol = run_seq(Chooser(spec.get('choices', ())), fate, tuple(spec['seq']), immediate=spec.get('immediate', False))
+        obs, viol = run_seq(Chooser(spec.get('choices', ())), fate, tuple(spec['seq']), immediate=spec.get('immediate', False),
+                            disposition=task.get('disposition', 'normal'))
         out['observation'] = obs
         if viol:
             last = obs['events'][-1][0] if obs.get('events') else spec['seq'][-1]
